@@ -584,6 +584,25 @@ func c06Transport(p *load.Program, r *oblig.Report) {
 					why = "run does not leave the loop when the helper reports a failed exchange"
 				}
 			}
+			if hit == nil && okLeave {
+				// and never before the outcome is known: every releaseConn is dominated by the error test
+				an.EachInstr(F, func(ins ssa.Instruction) {
+					c2, ok := ins.(*ssa.Call)
+					if !ok || !an.StaticCalleeIs(&c2.Call, release) {
+						return
+					}
+					testIf := start.Preds[0].Instrs[len(start.Preds[0].Instrs)-1]
+					for _, pb := range start.Preds {
+						if _, ci := an.IfCond(pb); ci != nil && ci.X == errVal {
+							testIf = pb.Instrs[len(pb.Instrs)-1]
+						}
+					}
+					if !an.Dominates(testIf, c2) {
+						okLeave = false
+						why = "releaseConn at " + p.Pos(c2.Pos()) + " runs before the result of the exchange is tested: a connection that failed is already back in the idle pool"
+					}
+				})
+			}
 			if hit == nil && !okLeave {
 				hit = rt
 			}
